@@ -129,16 +129,27 @@ func targetByName(ts []*vlib.Target, name string) *vlib.Target {
 var c13FlagValues = []seccomp.FilterFlag{0, 1, 2, 3, 4, 5, 6, 7, 8, 9, 10, 11, 12, 13, 14, 15, 16, 17, 19, 1 << 31, 0xffffffff, 0xfffffffc}
 var c13ActionValues = []seccomp.Action{vlib.RetKillThread, vlib.RetKillProcess, vlib.RetTrap, vlib.RetErrno, vlib.RetTrace, vlib.RetLog, vlib.RetAllow, vlib.RetUserNotif, 1, 0x50001, 0x7fff0001, 0xffffffff}
 
-// textForms returns the text form of every flag and action value.
+// textForms returns the text form of every flag and action value. What a
+// conversion returns belongs to the caller: after its text has been copied,
+// every returned byte slice is overwritten and appended to, as a caller may
+// do; later conversions must not be influenced by that.
 func textForms() []string {
 	var out []string
+	scribble := func(b []byte) {
+		for i := range b {
+			b[i] = 'X'
+		}
+		_ = append(b, "-caller-owned"...)
+	}
 	for _, f := range c13FlagValues {
 		b, _ := f.MarshalText()
 		out = append(out, fmt.Sprintf("flag %#x: %q %q", uint32(f), f.String(), string(b)))
+		scribble(b)
 	}
 	for _, a := range c13ActionValues {
 		b, _ := a.MarshalText()
 		out = append(out, fmt.Sprintf("action %#x: %q %q", uint32(a), a.String(), string(b)))
+		scribble(b)
 	}
 	return out
 }
@@ -323,13 +334,30 @@ func c13Workload(run *vlib.Run, ts []*vlib.Target, nPolicies, rounds int) {
 					before := vlib.SpecOf(p, s.Arch)
 					c := vlib.Compile(p, t)
 					run.Count("compilations", 1)
-					if d := progDigest(c.Ins, c.Err); d != golden[i] {
+					d0 := progDigest(c.Ins, c.Err)
+					for k := range c.Ins { // the returned program belongs to the caller: overwrite it after use
+						c.Ins[k] = bpf.RetConstant{Val: 0xdeadbeef}
+					}
+					if d := d0; d != golden[i] {
 						run.Violation("nondeterministic-compilation", fmt.Sprintf("policy %d compiled in goroutine %d differs from the sequential golden run (%s vs %s)", i, g, d, golden[i]), map[string]any{"check": "C13", "policy": s})
 						return
 					}
 					if after := vlib.SpecOf(p, s.Arch); !reflect.DeepEqual(before, after) {
 						run.Violation("policy-modified", fmt.Sprintf("policy %d was modified by Assemble", i), map[string]any{"check": "C13", "before": before, "after": after})
 						return
+					}
+					if (k+g)%8 == 1 && i+1 < len(specs) && specs[i+1].Arch == s.Arch {
+						// history: the same value edited in place to equal the next policy of the list and compiled again
+						// must give what a fresh, equal policy gives
+						next := specs[i+1].Policy()
+						p.DefaultAction, p.Syscalls = next.DefaultAction, next.Syscalls
+						c2 := vlib.Compile(p, t)
+						run.Count("recompilations_after_in_place_edit", 1)
+						if d := progDigest(c2.Ins, c2.Err); d != golden[i+1] {
+							run.Violation("stale-after-in-place-edit", fmt.Sprintf("policy %d edited in place to equal policy %d compiles to something else than a fresh equal policy", i, i+1), map[string]any{"check": "C13", "policy": specs[i+1]})
+							return
+						}
+						continue
 					}
 					if (k+g)%4 == 0 {
 						var buf bytes.Buffer
